@@ -54,6 +54,8 @@ template <class M> static void lock_rounds(int nt, int rounds, bool rw) {
             if constexpr (M::is_rw_mutex) l.acquire(m, write); else l.acquire(m);
             long got = vp_payload_read(&p);
             if (write) { long c = counter; if (got != expect(c)) bad("C08 holder saw a stale critical-section write", got, expect(c)); counter = c + 1; vp_payload_write(&p, c + 1); }
+            // a writer may step down to a reader: what it wrote must be visible to the readers that come in while it still holds the lock as a reader
+            if constexpr (M::is_rw_mutex) { if (write && (dice[(size_t)t][(size_t)r * 2 + 1] & 1)) { l.downgrade_to_reader(); spin(30000 + 100 * dice[(size_t)t][(size_t)r * 2 + 1]); (void)vp_payload_read(&p); } }
             l.release(); spin(dice[(size_t)t][(size_t)r * 2 + 1]);
         }
     });
